@@ -228,6 +228,8 @@ class ReindentFilter:
                     tlist.insert_after(ptoken,
                                        self.nl(self._get_offset(token)))
             tidx, token = tlist.token_next_by(i=sql.Parenthesis, idx=tidx)
+        for sgroup in tlist.get_sublists():
+            self._process(sgroup)
 
     def _process_default(self, tlist, stmts=True):
         self._split_statements(tlist) if stmts else None
